@@ -207,7 +207,7 @@ PROPS["C02"] = dict(
         "c02_s2_two_observes_prefix_closed": dict(cap=7200, tier="experimental"),
         "c02_s3_two_observers_vs_collect": dict(cap=7200, tier="experimental"),
         "c02_s4_two_collectors": dict(cap=7200, tier="experimental"),
-        "c02_s5_two_collectors_after_observation": dict(cap=5400, tier="thorough"),
+        "c02_s5_two_collectors_after_observation": dict(cap=5400, tier="experimental"),
         "c03_batch_flush_three_collects": dict(cap=10800, tier="experimental"),
     },
     functions=["HistogramCore::observe", "HistogramCore::proto", "ShardAndCount::{inc, inc_by, flip, get}", "AtomicU64::{inc_by, inc_by_with_ordering, swap, compare_exchange_weak}", "AtomicF64::{inc_by, swap}"],
